@@ -145,6 +145,16 @@ func registerE1(prop string, c *e1Config) {
 func init() {
 	registerE1("C01", &e1Config{checker: C01Checker{}, depth: [2]int{2, 3}, orphan: true})
 	registerE1("C02", &e1Config{checker: C02Checker{}, depth: [2]int{2, 3}, orphan: true})
+	registerE1("C03", &e1Config{checker: C03Checker{}, depth: [2]int{1, 2}, probes: C03Probes, frags: c03Frags,
+		extraAssume: []string{"the request menu (probes) is applied from every state reached with at most depth_bound operations; invalid fragments violate one constraint class each, independent of the state"}})
+	{
+		fr, names := smallFrags()
+		_ = fr
+		alpha := BuildAlphabet(names, CoreMulti(), false)
+		registerE1("C05", &e1Config{checker: C05Checker{}, depth: [2]int{1, 2}, probes: c05Probes(alpha), frags: smallFrags,
+			extraAssume: []string{"timer expiry is driven with a real 1 ms transaction timeout and a 30 s watchdog on the release of the transaction slot (single active thread, no schedule enumeration here; interleavings are C16)",
+				"unmanaged device leaves removed by an aggregated list-entry delete are not required to come back (the property speaks of paths the transaction touched on behalf of intents)"}})
+	}
 	registerE1("C09", &e1Config{checker: C09Checker{}, depth: [2]int{2, 3}, orphan: true, renderAll: true, probes: C09Probes, frags: smallFrags,
 		extraAssume: []string{"probe transitions (re-submissions) start from every state reached with fewer than depth_bound operations"}})
 }
